@@ -95,6 +95,9 @@ theorem execPhase_outcome (sc : Scenario) (ctx : Ctx) (x : XState) (conf : Conf)
     simp [mkResult, Outcome.isConsentErr, this]
   | none =>
     simp only
+    by_cases hb : barrierFails sc ctx del (x1.sendDest (.marker .copying)) = true
+    · simp [hb, mkResult, Outcome.isConsentErr, ErrKind.isConsent]
+    simp only [hb, Bool.false_eq_true, ↓reduceIte]
     have h2 := copyLoop_err ctx sc.errAtPoll sc.files cpy.iter (x1.sendDest (.marker .copying)) st1
     generalize copyLoop ctx sc.errAtPoll sc.files cpy.iter (x1.sendDest (.marker .copying)) st1 = r2 at h2
     obtain ⟨e2, x2, st2⟩ := r2
